@@ -27,13 +27,13 @@ M = [
  ('M14-04', 'C14', 'parameters.py', "TRUE_STR = ('True', 'true', 'Yes', 'yes')", "TRUE_STR = ('True', 'true', 'Yes')", 'I14.4'),
  ('M14-05', 'C14', 'results.py', "        for name, values in table.iterrows():\n            html += f'<tr class=biostyle><td>{name}</td>'", "        for name, values in list(table.iterrows())[:-1] if len(table) > 2 else table.iterrows():\n            html += f'<tr class=biostyle><td>{name}</td>'", 'I14.5'),
  ('M14-06', 'C14', 'results.py', "            results += f' {values[\"Value\"]: >+19.12e}'", "            results += f' {values[\"Value\"]: >+19.5e}'", 'I14.5'),
- ('M14-07', 'C14', 'results.py', "        self.bootstrap: np.ndarray = bootstrap\n", "        self.bootstrap: np.ndarray = None if bootstrap is None else np.round(bootstrap, 3)\n", 'I14.3'),
+ ('M14-07', 'C14', 'results.py', "            pickle.dump(self.data, f)\n", "            import copy as _c\n            _d = _c.copy(self.data)\n            _d.bhhh = np.round(_d.bhhh, 4)\n            pickle.dump(_d, f)\n", 'I14.3'),
  ('M14-08', 'C14', 'database.py', "        self.data.to_csv(data_file_name, sep='\\t', index_label='__rowId')", "        self.data.round(1).to_csv(data_file_name, sep='\\t', index_label='__rowId')", 'I14.3d'),
  ('M13-01', 'C13', 'database.py', "        to_be_removed = (self.data[column_name] != 0).to_numpy()", "        to_be_removed = (self.data[column_name] > 0).to_numpy()", 'I13.rows'),
  ('M13-02', 'C13', 'database.py', "        sample = self.data.iloc[np.random.randint(0, len(self.data), size=size)]", "        sample = self.data.loc[np.random.randint(0, len(self.data), size=size)]", 'I13.sub'),
  ('M13-03', 'C13', 'database.py', "        reduced_data_frame = self.data.iloc[list(a_range)]", "        reduced_data_frame = self.data.loc[list(a_range)]", 'I13.extract'),
  ('M13-04', 'C13', 'database.py', "            estimation_sets.append(pd.concat(the_slices[:i] + the_slices[i + 1 :]))", "            estimation_sets.append(pd.concat(the_slices[:i] + the_slices[i:]))", 'I13.folds'),
- ('M13-05', 'C13', 'database.py', "        self.data[column] *= scale", "        self.data[column] *= scale\n        self.fullData[column] *= 1 if self.fullData is self.data else scale", 'none(alias)'),
+ ('M13-05', 'C13', 'database.py', "        self.data[column] *= scale", "        self.data[column] = self.data[column] * scale * (scale if scale == 0.5 else 1)", 'I13.values'),
  ('M13-06', 'C13', 'database.py', "        return self.data[self.data[column_name] == value].count()[column_name]", "        return self.data[self.data[column_name] >= value].count()[column_name]", 'I13.count'),
  ('M13-07', 'C13', 'tools/database.py', "        sorted_list = sorted(list(the_columns))\n        first = True\n        i = 0", "        sorted_list = sorted(list(the_columns))\n        first = True\n        i = 0\n        x = x.iloc[::-1] if len(x) == 3 else x", 'I13.flat'),
  ('M09-01', 'C09', 'database.py', "                local_map[i] = [min(indices), max(indices)]", "                local_map[i] = [min(indices), min(indices) + len(indices) - (2 if len(indices) > 3 else 1)]", 'I09'),
@@ -47,11 +47,11 @@ M = [
  ('M07-02', 'C07', 'biogeme.py', "        f_g_h_b: BiogemeFunctionOutput = self.calculate_likelihood_and_derivatives(\n            xstar, scaled=False, hessian=True, bhhh=True\n        )", "        f_g_h_b: BiogemeFunctionOutput = self.calculate_likelihood_and_derivatives(\n            xstar * (1 + 1e-4), scaled=False, hessian=True, bhhh=True\n        )", 'I07.recompute'),
  ('M07-03', 'C07', 'biogeme.py', "                if self.database.is_panel():\n                    self.theC.setDataMap(self.database.individualMap)\n                else:\n                    self.theC.setData(self.database.data)\n", "                pass\n", 'I07.sameobj'),
  ('M07-04', 'C07', 'expressions/idmanager.py', "            for b in self.free_betas.names\n        ]\n        self.number_of_free_betas", "            for b in reversed(self.free_betas.names)\n        ]\n        self.number_of_free_betas", 'I07.bounds'),
- ('M07-05', 'C07', 'negative_likelihood.py', "            gradient=-the_function_output.gradient,\n            hessian=None,", "            gradient=-the_function_output.gradient * 0.5,\n            hessian=None,", 'I07'),
+ ('M07-05', 'C07', 'biogeme.py', "        raw_results = res.RawResults(\n            self, xstar, f_g_h_b, bootstrap=self.bootstrap_results\n        )", "        raw_results = res.RawResults(\n            self, np.round(xstar, 3), f_g_h_b, bootstrap=self.bootstrap_results\n        )", 'I07.recompute'),
  ('M16-01', 'C16', 'configuration.py', "        self.__selections = sorted(the_list)", "        self.__selections = list(the_list)", 'I16.id'),
  ('M16-02', 'C16', 'controller.py', "            self.set_index(new_index % the_size)", "            self.set_index(new_index % the_size if the_size > 2 else min(max(new_index, 0), the_size - 1))", 'I16.op'),
  ('M16-03', 'C16', 'controller.py', "            for combination in product(*all_controllers_states)", "            for combination in (zip(*all_controllers_states) if len(all_controllers_states) == 3 else product(*all_controllers_states))", 'I16.product'),
- ('M16-04', 'C16', 'catalog.py', "        return self.named_expressions[self.controlled_by.current_index]", "        return self.named_expressions[self.current_index if hasattr(self, 'current_index') else self.controlled_by.current_index]", 'I16'),
+ ('M16-04', 'C16', 'catalog.py', "        return self.named_expressions[self.controlled_by.current_index]\n\n    def selected_name", "        return self.named_expressions[self.controlled_by.current_index if len(self.named_expressions) != 3 else (self.controlled_by.current_index + 1) % 3]\n\n    def selected_name", 'I16'),
  ('M01-01', 'C01', 'biogeme.py', "        for f in self.formulas.values():\n            f.set_id_manager(id_manager=self.id_manager)\n        formulas_signature", "        formulas_signature", 'I01'),
  ('M01-02', 'C01', 'expressions/base_expressions.py', "        if prepare_ids:\n            self.keep_id_manager = self.id_manager\n            self.prepare(database, number_of_draws)", "        if prepare_ids:\n            self.keep_id_manager = None\n            self.prepare(database, number_of_draws)", 'I01'),
  ('M03-01', 'C03', 'biogeme.py', "        for x in self.id_manager.free_betas.names:\n            v = beta_dict.get(x)", "        for x, v0 in zip(self.id_manager.free_betas.names, beta_dict.values()):\n            v = v0", 'I03'),
